@@ -44,7 +44,7 @@ ADVERSARIAL = {
     "uvec": ["temp_k1", "tmp_1", "temp"],
     "flag": ["cond", "cond_0", "ifthenelse_cond"],
 }
-P_REAL = ["<p>s", "<p>last", "<state>r"]
+P_REAL = ["<p>s", "<p>last", "<state>r", "<state>ex", "<state>tau"]   # (component names starting with s, t, a, e too)
 P_UVEC = ["<state>y", "<state>u", "<p>yold"]
 P_ARR = ["<p>hist"]
 P_INT = ["<p>n"]
@@ -667,16 +667,17 @@ class Gen:
             if self.p["triangular"] and n >= 4 and (force or self.chance(40)):
                 w = 2 if n < 6 else self.choice([2, 3])
             h = n // w
-            self.loop_env["i"] = (0, w)
-            self.loop_env["j"] = (0, h)
-            idx = normal(["sum", normal(["prod", V("j"), C(w)]), V("i")])
-            loops = [["j", C(0), self.bound_tree(h)], ["i", C(0), self.bound_tree(w)]]
+            li, lj = self.LV[0], self.LV[1]
+            self.loop_env[li] = (0, w)
+            self.loop_env[lj] = (0, h)
+            idx = normal(["sum", normal(["prod", V(lj), C(w)]), V(li)])
+            loops = [[lj, C(0), self.bound_tree(h)], [li, C(0), self.bound_tree(w)]]
             if self.p["triangular"] and h <= w and h >= 2 and (force or self.chance(50)):
                 # triangular nest: the inner bound depends on the outer counter (outer loop first)
                 if self.chance(50):
-                    loops = [["j", C(0), self.bound_tree(h)], ["i", C(0), normal(["sum", V("j"), C(1)])]]
+                    loops = [[lj, C(0), self.bound_tree(h)], [li, C(0), normal(["sum", V(lj), C(1)])]]
                 else:
-                    loops = [["j", C(0), self.bound_tree(h)], ["i", V("j"), self.bound_tree(w)]]
+                    loops = [[lj, C(0), self.bound_tree(h)], [li, V(lj), self.bound_tree(w)]]
                 self.features.add("triangular")
             elif self.chance(50):
                 loops.reverse()
